@@ -375,6 +375,39 @@ def run_ctor(case):
             want = (u, u * v, (u + v) if x == y else v)
             if isinstance(r, str) or tuple(r) != want:
                 fails.append(_fail("from_string / product / union evaluated by __call__ over a non-commutative semiring", {"xs": "".join(x), "ys": "".join(y)}, r, want))
+    # results are NEW machines: editing a result never changes an operand, the empty machine or the shared
+    # one / zero constants (operations with the empty machine and the constants are the identity cases)
+    def lang3(m):
+        return tuple(_call(m, x) for x in ("", "a", "x", "ax"))
+
+    from genlm.grammar.semiring import Real
+
+    for cls, mkempty, RR, half in ((base.WFSA, lambda: base.WFSA(Real), Real, Real(0.5)), (FieldWFSA, lambda: FieldWFSA(), Float, 0.5)):
+        results = [
+            ("zero+A", lambda A, Z: Z + A), ("A+zero", lambda A, Z: A + Z), ("one*A", lambda A, Z: cls.one * A if cls is FieldWFSA else Z.one * A),
+            ("A*one", lambda A, Z: A * (cls.one if cls is FieldWFSA else Z.one)), ("empty.star()", lambda A, Z: Z.star()), ("A.star()", lambda A, Z: A.star()),
+            ("empty+empty", lambda A, Z: Z + mkempty()), ("A.kleene_plus()", lambda A, Z: A.kleene_plus()),
+        ]
+        for rname, f in results:
+            A = cls.from_string("a", RR, w=half)
+            Z = mkempty()
+            consts = (cls.one, cls.zero) if cls is FieldWFSA else ()
+            U = _call(lambda: f(A, Z))
+            evals += 1
+            if isinstance(U, str):
+                fails.append(_fail("identity cases of the rational operations: construct", {"class": cls.__name__, "expr": rname}, U, "automaton"))
+                continue
+            before = (lang3(A), lang3(Z), tuple(lang3(c) for c in consts))
+            try:
+                U.add_I("new", half)
+                U.add_arc("new", "x", "new", half)
+                U.add_F("new", half)
+            except Exception as e:  # noqa: BLE001
+                fails.append(_fail("the result of an operation can be edited", {"class": cls.__name__, "expr": rname}, f"EXC {type(e).__name__}: {e}", "ok"))
+                continue
+            after = (lang3(A), lang3(Z), tuple(lang3(c) for c in consts))
+            if after != before:
+                fails.append(_fail("editing the result of an operation leaves operands and the one/zero constants unchanged", {"class": cls.__name__, "expr": rname}, after, before))
     strs3 = strs + [("a", "b", "a"), ("a", "a", "b")]
     for k in (0, 1, 2, 3):
         # every ORDER of every set of strings (a member may be a proper prefix of an earlier or later one)
